@@ -111,6 +111,9 @@ class TriangularLinearOperator(LinearOperator, _TriangularLinearOperatorBase):
     def _mul_constant(
         self: Float[LinearOperator, "*batch M N"], other: Union[float, torch.Tensor]
     ) -> Float[LinearOperator, "*batch M N"]:
+        # other holds one constant per batch member (or a single one): it scales whole matrices
+        if isinstance(self._tensor, DenseLinearOperator):
+            return self.__class__(self._tensor.tensor * other.unsqueeze(-1).unsqueeze(-1), upper=self.upper)
         return self.__class__(self._tensor * other.unsqueeze(-1), upper=self.upper)
 
     def _root_decomposition(
